@@ -220,7 +220,7 @@ func (link *ToxicLink) RemoveToxic(ctx context.Context, toxic *toxics.ToxicWrapp
 			// Cleanup could have closed the stub.
 			if link.stubs[toxic_index].Closed() {
 				log.Trace().Msg("Cleanup closed toxic and removed toxic")
-				// TODO: Check if cleanup happen would link.stubs recalculated?
+				link.removeStub(toxic_index)
 				return
 			}
 		}
@@ -245,7 +245,8 @@ func (link *ToxicLink) RemoveToxic(ctx context.Context, toxic *toxics.ToxicWrapp
 					if !stopped {
 						<-stop
 					}
-					return // TODO: There are some steps after this to clean buffer
+					link.removeStub(toxic_index)
+					return
 				}
 
 				err := link.stubs[toxic_index].WriteOutput(tmp, 5*time.Second)
@@ -261,6 +262,7 @@ func (link *ToxicLink) RemoveToxic(ctx context.Context, toxic *toxics.ToxicWrapp
 			tmp := <-link.stubs[toxic_index].Input
 			if tmp == nil {
 				link.stubs[toxic_index].Close()
+				link.removeStub(toxic_index)
 				return
 			}
 			err := link.stubs[toxic_index].WriteOutput(tmp, 5*time.Second)
@@ -274,7 +276,18 @@ func (link *ToxicLink) RemoveToxic(ctx context.Context, toxic *toxics.ToxicWrapp
 		link.stubs = append(link.stubs[:toxic_index], link.stubs[toxic_index+1:]...)
 
 		go link.stubs[toxic_index-1].Run(link.toxics.chain[link.direction][toxic_index-1])
+	} else {
+		// The stub is already closed: nothing to flush, but it still has to go.
+		link.removeStub(toxic_index)
 	}
+}
+
+// removeStub drops the stub of a removed toxic from the link without touching the
+// channels. It is used when the stub is closed (the stream has ended at this toxic),
+// so that link.stubs stays aligned with the toxic chain, which has already been
+// shortened: later updates and removals address stubs by the toxics' chain index.
+func (link *ToxicLink) removeStub(index int) {
+	link.stubs = append(link.stubs[:index], link.stubs[index+1:]...)
 }
 
 // Direction returns the direction of the link (upstream or downstream).
